@@ -9,4 +9,9 @@ require (
 
 require github.com/pion/logging v0.2.3
 
+require (
+	golang.org/x/net v0.34.0 // indirect
+	golang.org/x/sys v0.29.0 // indirect
+)
+
 replace github.com/pion/transport/v3 => /repo
